@@ -181,6 +181,57 @@ Example C01_nonvacuous_pipeline :
   = Ok [[VInt 3; VNull]; [VInt 2; VNode 3]].
 Proof. vm_compute. reflexivity. Qed.
 
+(* ---- the witnesses of the known findings (known_findings.txt; replayed on the engine by the
+   harness every run): what the reference semantics defines on the harness's fixed graph, and,
+   where the deviation is modelled, what [eng_cfg] - the engine's recorded behaviour - gives ---- *)
+Definition fixed_graph : graph :=
+  Build_graph
+    [Build_node 1 [0] [(0, VInt 1); (1, VStr [97])]; Build_node 2 [0; 1] [(0, VInt 2)];
+     Build_node 3 [1] [(0, VStr [97])]; Build_node 4 [] [(0, VBool true); (3, VList [VInt 1; VInt 2])]]
+    [Build_rel 1 1 2 0 [(0, VInt 1)]; Build_rel 2 1 2 0 [(0, VInt 2)]; Build_rel 3 2 3 1 [];
+     Build_rel 4 3 3 0 []; Build_rel 5 3 1 2 []; Build_rel 6 4 1 0 []].
+Definition ret1 (i : item) : proj := PJ false [(i, 100)] [] None None.
+Definition anyn (x : N) : npat expr := NP (Some x) [] [].
+Definition anyr (x : N) : rpat expr := RP (Some x) [] DOut [] None.
+
+Example C01_known_witnesses :
+  (* multi_path_rel_iso: MATCH (a)-[r]->(b), (c)-[s]->(d) RETURN count( * ) *)
+  (let q := Q [SQ [CMatch false [(anyn 1, [(anyr 2, anyn 3)]); (anyn 4, [(anyr 5, anyn 6)])] None]
+                  (ret1 (IAgg GCount false None))] false in
+   eval_query fixed_graph q = Ok [[VInt 30]] /\ eval_query_cfg eng_cfg fixed_graph [] q = Ok [[VInt 36]])
+  (* list_eq_null: RETURN [1, null] = [1, null] *)
+  /\ (let q := Q [SQ [] (ret1 (IExpr (ECmp OEq (ELit (VList [VInt 1; VNull])) (ELit (VList [VInt 1; VNull])))))] false in
+      eval_query fixed_graph q = Ok [[VNull]] /\ eval_query_cfg eng_cfg fixed_graph [] q = Ok [[VBool true]])
+  (* with_agg_empty: MATCH (n:D) WITH count( * ) AS c RETURN c *)
+  /\ (let q := Q [SQ [CMatch false [(NP (Some 1) [3] [], [])] None;
+                     CWith (PJ false [(IAgg GCount false None, 2)] [] None None) None]
+                    (ret1 (IExpr (EVar 2)))] false in
+      eval_query fixed_graph q = Ok [[VInt 0]] /\ eval_query_cfg eng_cfg fixed_graph [] q = Ok [])
+  (* sum_distinct: MATCH (n) RETURN sum(DISTINCT 5) *)
+  /\ (let q := Q [SQ [CMatch false [(anyn 1, [])] None] (ret1 (IAgg GSum true (Some (ELit (VInt 5)))))] false in
+      eval_query fixed_graph q = Ok [[VInt 5]] /\ eval_query_cfg eng_cfg fixed_graph [] q = Ok [[VInt 20]])
+  (* collect_distinct_entities: MATCH (n:A) RETURN size(collect(DISTINCT n)), via WITH *)
+  /\ (let q := Q [SQ [CMatch false [(NP (Some 1) [0] [], [])] None;
+                     CWith (PJ false [(IAgg GCollect true (Some (EVar 1)), 2)] [] None None) None]
+                    (ret1 (IExpr (EFn FSize [EVar 2])))] false in
+      eval_query fixed_graph q = Ok [[VInt 2]] /\ eval_query_cfg eng_cfg fixed_graph [] q = Ok [[VInt 0]])
+  (* varlen_reachability: MATCH (a)-[*1..1]->(b) WHERE id(a) = 1 RETURN id(b): two trails *)
+  /\ (let q := Q [SQ [CMatch false [(anyn 1, [(RP None [] DOut [] (Some (1%nat, Some 1%nat)), anyn 2)])]
+                            (Some (ECmp OEq (EFn FId [EVar 1]) (ELit (VInt 1))))]
+                    (ret1 (IExpr (EFn FId [EVar 2])))] false in
+      eval_query fixed_graph q = Ok [[VInt 2]; [VInt 2]] /\ Known_syntactic q = true)
+  (* optional_where_outer: MATCH (n:A) OPTIONAL MATCH (n)-[r]->(m) WHERE n.p0 = 2 RETURN id(n), id(m) *)
+  /\ (let q := Q [SQ [CMatch false [(NP (Some 1) [0] [], [])] None;
+                     CMatch true [(anyn 1, [(anyr 2, anyn 3)])] (Some (ECmp OEq (EProp 1 0) (ELit (VInt 2))))]
+                    (PJ false [(IExpr (EFn FId [EVar 1]), 100); (IExpr (EFn FId [EVar 3]), 101)] [] None None)] false in
+      eval_query fixed_graph q = Ok [[VInt 1; VNull]; [VInt 2; VInt 3]] /\ Known_syntactic q = true)
+  (* where_after_optional: OPTIONAL MATCH (n:D) MATCH (m:A) WHERE n.p2 RETURN id(m) *)
+  /\ (let q := Q [SQ [CMatch true [(NP (Some 1) [3] [], [])] None;
+                     CMatch false [(NP (Some 2) [0] [], [])] (Some (EProp 1 2))]
+                    (ret1 (IExpr (EFn FId [EVar 2])))] false in
+      eval_query fixed_graph q = Ok [] /\ Known_syntactic q = true).
+Proof. vm_compute. repeat split. Qed.
+
 Print Assumptions C01_match_sound_complete.
 Print Assumptions C01_path_sound_complete.
 Print Assumptions C01_multilabel.
